@@ -59,3 +59,14 @@ Example C02_cond_reduce_nonvacuous :
   cond_reduce 3 ex_body = (ex_out, 5%nat) /\ cr_gen 3 ex_body = ["_r3"; "_r4"]
   /\ wf_cr_prog 3 {| fp_init := []; fp_body := ex_body |} = true.
 Proof. vm_compute. repeat split; reflexivity. Qed.
+
+(* The hypothesis wf_cr cannot be dropped: a block that uses a variable named like the alias
+   the counter is about to produce is transformed into one with a different law of a source
+   variable, from the same state.  The correspondence module replays such an input on the
+   real pass (capture probe). *)
+Theorem C02_cond_reduce_needs_wf :
+  wf_cr 1 cr_capture_body = false /\
+  E (exec_gas no_law (fst (cond_reduce 1 cr_capture_body)) cr_capture_state) (fun s => s "z")
+  <> E (exec_gas no_law cr_capture_body cr_capture_state) (fun s => s "z").
+Proof. exact cond_reduce_needs_wf. Qed.
+Print Assumptions C02_cond_reduce_needs_wf.
